@@ -20,6 +20,110 @@ func tAtom(v any) tmpl      { return tmpl{"atom", v} }
 func tUnq(n string) tmpl    { return tmpl{"unq", n} }
 func tSplice(n string) tmpl { return tmpl{"splice", n} }
 func tSum(a, b int) tmpl    { return tmpl{"unqsum", a, b} }
+func tUnqX(e []any) tmpl    { return tmpl{"unqx", e} }
+func tSpliceX(e []any) tmpl { return tmpl{"splicex", e} }
+func tSugar(h string, t tmpl) tmpl {
+	return tmpl{"sugar", h, t}
+}
+
+// expressions of ~e / ~@e (the small pure language of Quasi!Eval)
+func eLit(v any) []any        { return []any{"lit", v} }
+func eQt(v any) []any         { return []any{"qt", v} }
+func eVar(n string) []any     { return []any{"var", n} }
+func eBad(label string) []any { return []any{"bad", label} }
+func eSeq(kind string, es ...[]any) []any {
+	s := []any{}
+	for _, e := range es {
+		s = append(s, e)
+	}
+	return []any{kind, s}
+}
+
+// expressions that have no value: rejected when written on their own, some when compiled, some when run
+var badTexts = map[string]string{
+	"let":      "(let)",
+	"def":      "(def)",
+	"set":      "(set 5 1)",
+	"break":    "(break)",
+	"letlet":   "(let [z 1] (let))",
+	"car":      "(car 5)",
+	"unbound":  "(nosuchfn 1)",
+	"macarity": "(two 1 2)",
+	"macfail":  "(badmac)",
+}
+
+func renderExpr(e []any) string {
+	seq := func(head string) string {
+		parts := []string{head}
+		for _, x := range e[1].([]any) {
+			parts = append(parts, renderExpr(x.([]any)))
+		}
+		return "(" + strings.Join(parts, " ") + ")"
+	}
+	switch e[0] {
+	case "lit":
+		return renderValue(e[1])
+	case "qt":
+		return "(quote " + renderValue(e[1]) + ")"
+	case "var":
+		return e[1].(string)
+	case "sum":
+		return "(+ " + renderExpr(e[1].([]any)) + " " + renderExpr(e[2].([]any)) + ")"
+	case "begin":
+		return seq("begin")
+	case "scope":
+		return seq("newScope")
+	case "mklist":
+		return seq("list")
+	case "bad":
+		t, ok := badTexts[e[1].(string)]
+		if !ok {
+			fatal("quasi: unknown bad expression %v", e[1])
+		}
+		return t
+	}
+	fatal("quasi: unknown expression %v", e)
+	return ""
+}
+
+// goEval: the harness's own evaluation, used only to WRITE the hand expansion
+func goEval(e []any, b map[string]any) (any, bool) {
+	switch e[0] {
+	case "lit", "qt":
+		return e[1], true
+	case "var":
+		v, ok := b[e[1].(string)]
+		return v, ok
+	case "sum":
+		x, ok1 := goEval(e[1].([]any), b)
+		y, ok2 := goEval(e[2].([]any), b)
+		if !ok1 || !ok2 || x.([]any)[0] != "int" || y.([]any)[0] != "int" {
+			return nil, false
+		}
+		return []any{"int", asInt(x.([]any)[1]) + asInt(y.([]any)[1])}, true
+	case "begin", "scope", "mklist":
+		var vs []any
+		for _, x := range e[1].([]any) {
+			v, ok := goEval(x.([]any), b)
+			if !ok {
+				return nil, false
+			}
+			vs = append(vs, v)
+		}
+		if e[0] == "mklist" {
+			if len(vs) == 0 {
+				return []any{"nil"}, true
+			}
+			return []any{"list", vs}, true
+		}
+		if len(vs) == 0 {
+			return []any{"nil"}, true
+		}
+		return vs[len(vs)-1], true
+	}
+	return nil, false
+}
+
 func tSeq(kind string, ts ...tmpl) tmpl {
 	s := []any{}
 	for _, t := range ts {
@@ -62,6 +166,17 @@ func renderTmpl(t tmpl) string {
 		return "~@" + t[1].(string)
 	case "unqsum":
 		return fmt.Sprintf("~(+ %d %d)", asInt(t[1]), asInt(t[2]))
+	case "unqx":
+		return "~" + renderExpr(t[1].([]any))
+	case "splicex":
+		return "~@" + renderExpr(t[1].([]any))
+	case "sugar":
+		if t[1] == "quote" {
+			return "%" + renderTmpl(t[2].([]any))
+		}
+		return "^" + renderTmpl(t[2].([]any))
+	case "hashobj":
+		fatal("quasi: a hash object cannot be written as text; use buildExpr")
 	}
 	var parts []string
 	for _, e := range t[1].([]any) {
@@ -81,6 +196,53 @@ func renderTmpl(t tmpl) string {
 	return "{" + strings.Join(kv, " ") + "}"
 }
 
+// buildExpr writes an expression whose VALUE is the template t (as a datum): the way a program gets a hash
+// object into a template, (eval (list (quote syntaxQuote) <built>)) or a macro returning that form
+func buildExpr(t tmpl) string {
+	switch t[0] {
+	case "atom", "unq", "splice", "unqsum", "unqx", "splicex":
+		return "(quote " + renderTmpl(t) + ")"
+	case "sugar":
+		return "(list (quote " + t[1].(string) + ") " + buildExpr(t[2].([]any)) + ")"
+	}
+	var parts []string
+	for _, e := range t[1].([]any) {
+		parts = append(parts, buildExpr(e.([]any)))
+	}
+	switch t[0] {
+	case "list":
+		return "(list " + strings.Join(parts, " ") + ")"
+	case "arr":
+		return "[" + strings.Join(parts, " ") + "]"
+	case "hashform":
+		return "(list (quote hash) " + strings.Join(parts, " ") + ")"
+	}
+	return "(hash " + strings.Join(parts, " ") + ")"
+}
+
+// hasKind: does the template contain a node (template or expression) of one of the kinds
+func hasKind(x any, kinds ...string) bool {
+	v, ok := x.([]any)
+	if !ok {
+		return false
+	}
+	if len(v) > 0 {
+		if s, ok := v[0].(string); ok {
+			for _, k := range kinds {
+				if s == k {
+					return true
+				}
+			}
+		}
+	}
+	for _, y := range v {
+		if hasKind(y, kinds...) {
+			return true
+		}
+	}
+	return false
+}
+
 // goSubst: the harness's own substitution, used only to WRITE the hand expansion
 func goSubst(t tmpl, b map[string]any) (any, bool) {
 	mk := func(kind string, es []any) any {
@@ -96,14 +258,27 @@ func goSubst(t tmpl, b map[string]any) (any, bool) {
 		return b[t[1].(string)], true
 	case "unqsum":
 		return []any{"int", asInt(t[1]) + asInt(t[2])}, true
-	case "splice":
+	case "unqx":
+		return goEval(t[1].([]any), b)
+	case "sugar":
+		return goSubst(tSeq("list", tAtom([]any{"sym", t[1]}), t[2].([]any)), b)
+	case "splice", "splicex", "hashobj":
 		return nil, false
 	}
 	var es []any
 	for _, e := range t[1].([]any) {
 		et := e.([]any)
-		if et[0] == "splice" {
-			v := b[et[1].(string)].([]any)
+		if et[0] == "splice" || et[0] == "splicex" {
+			var v []any
+			if et[0] == "splice" {
+				v = b[et[1].(string)].([]any)
+			} else {
+				x, ok := goEval(et[1].([]any), b)
+				if !ok {
+					return nil, false
+				}
+				v = x.([]any)
+			}
 			switch v[0] {
 			case "nil":
 			case "list":
@@ -135,7 +310,10 @@ type quasiCase struct {
 	Text  string `json:"text"`
 	Binds []any  `json:"binds"`
 	Out   any    `json:"out,omitempty"`
+	Route string `json:"route,omitempty"` // template cases: "" ^T | fn (defn mkt [] ^T) (mkt) | eval / macro: the template is built as a value
 	// macro cases
+	Name          string `json:"name,omitempty"` // the macro's name (the names dimension)
+	DefOut        any    `json:"defout,omitempty"`
 	Site          string `json:"site,omitempty"`
 	Expansion     any    `json:"expansion,omitempty"`
 	CallOut       any    `json:"callout,omitempty"`
@@ -160,7 +338,11 @@ var quasiBinds = []struct {
 	{"one", "(list 9)", []any{"list", []any{[]any{"int", 9}}}},
 	{"emp", "(list)", []any{"nil"}},
 	{"arr", "[7 8]", []any{"arr", []any{[]any{"int", 7}, []any{"int", 8}}}},
+	{"pr", "(list 7 (quote j) 8)", []any{"list", []any{[]any{"int", 7}, []any{"sym", "j"}, []any{"int", 8}}}},
 }
+
+// macros the erroneous unquoted expressions call
+const quasiMacros = "(defmac two [a] ^(list ~a ~a))\n(defmac badmac [] (car 5))\n"
 
 func quasiEnv() *semEnv {
 	se := newSemEnv()
@@ -169,7 +351,19 @@ func quasiEnv() *semEnv {
 			fatal("quasi bind %s: %s", b.name, o.Err)
 		}
 	}
+	if o := evalSafe(se.env, quasiMacros); o.Kind != "val" {
+		fatal("quasi macros: %s", o.Err)
+	}
 	return se
+}
+
+// every "bad" expression is rejected when written on its own (the premise of Quasi!Eval's "bad")
+func checkBadTexts() {
+	for label, text := range badTexts {
+		if o := evalSafe(quasiEnv().env, text+"\n"); o.Kind == "val" || o.Kind == "nilres" {
+			fatal("quasi: the expression %s (%s) has a value", text, label)
+		}
+	}
 }
 
 func bindsJSON() []any {
@@ -182,8 +376,21 @@ func bindsJSON() []any {
 
 const scrambleDef = "(defn scramble [v] (cond (array? v) (begin (for [(def i 0) (< i (len v)) (def i (+ i 1))] (scramble (aget v i)) (aset v i 99)) nil) (null? v) nil (list? v) (begin (map scramble v) nil) nil))\n"
 
-func runTemplate(se *semEnv, id string, t tmpl) quasiCase {
-	text := "^" + renderTmpl(t) + "\n"
+func runTemplate(se *semEnv, id string, t tmpl, route string) quasiCase {
+	if se == nil {
+		se = quasiEnv()
+	}
+	var text string
+	switch route {
+	case "eval":
+		text = "(eval (list (quote syntaxQuote) " + buildExpr(t) + "))\n"
+	case "macro":
+		text = "(defmac mkh [] (list (quote syntaxQuote) " + buildExpr(t) + "))\n(mkh)\n"
+	case "fn":
+		text = "(defn mkt [] ^" + renderTmpl(t) + ")\n(mkt)\n"
+	default:
+		text = "^" + renderTmpl(t) + "\n"
+	}
 	if strings.HasPrefix(id, "tw") {
 		// the template is evaluated by a function called twice; every array reachable from the
 		// first result is overwritten in place before the second call: a template is rebuilt by
@@ -197,7 +404,7 @@ func runTemplate(se *semEnv, id string, t tmpl) quasiCase {
 	} else {
 		out = projOutcome(se.env, o)
 	}
-	return quasiCase{ID: id, Kind: "template", Tmpl: t, Text: text, Binds: bindsJSON(), Out: out, CallFx: []any{}, HandFx: []any{}}
+	return quasiCase{ID: id, Kind: "template", Tmpl: t, Text: text, Binds: bindsJSON(), Out: out, Route: route, CallFx: []any{}, HandFx: []any{}}
 }
 
 func leafTemplates() []tmpl {
@@ -225,6 +432,30 @@ func nestedTemplates() []tmpl {
 	}
 }
 
+// extraTemplates: the unquoted expressions of Quasi!Eval, negative literals, reader sugar
+func extraTemplates() []tmpl {
+	i := func(n int) any { return []any{"int", n} }
+	return []tmpl{
+		// no instructions are compiled for these; their value is nil
+		tUnqX(eSeq("begin")), tUnqX(eSeq("scope")), tUnqX(eSeq("begin", eSeq("begin"))), tUnqX(eSeq("begin", eSeq("scope"), eSeq("begin"))),
+		tSpliceX(eSeq("begin")), tSpliceX(eSeq("begin", eSeq("scope"))),
+		// (not (newScope (begin)): a scope around forms that compile to nothing has no value anywhere, also as
+		// an argument of a call -- the statement of another property)
+		// nil-valued and valued compound expressions
+		tUnqX(eSeq("mklist")), tUnqX(eSeq("begin", eLit(i(1)), eLit(i(2)))), tUnqX(eSeq("scope", eVar("x"))),
+		tUnqX(eSeq("mklist", eLit(i(1)), eSeq("begin"))), tUnqX(eQt([]any{"sym", "q"})), tUnqX(eLit(i(-5))),
+		tUnqX([]any{"sum", eVar("x"), eLit(i(-5))}),
+		tSpliceX(eSeq("mklist", eLit(i(-5)), eQt([]any{"sym", "b"}), eLit(i(2)))), tSpliceX(eSeq("mklist")),
+		// literally as written: negative numbers, %datum and ^datum inside a template
+		tAtom(i(-5)), tSugar("quote", tAtom(i(-5))), tSugar("syntaxQuote", tAtom(i(-5))), tSugar("quote", tAtom([]any{"sym", "a"})),
+		tSugar("quote", tUnq("x")), tSugar("syntaxQuote", tSeq("list", tAtom(i(-5)), tUnqX(eLit(i(-5))))),
+		// expressions without a value: rejected when compiled, rejected when run
+		tUnqX(eBad("let")), tUnqX(eBad("def")), tUnqX(eBad("set")), tUnqX(eBad("break")), tUnqX(eBad("letlet")),
+		tUnqX(eBad("car")), tUnqX(eBad("unbound")), tUnqX(eBad("macarity")), tUnqX(eBad("macfail")),
+		tUnqX(eSeq("begin", eLit(i(1)), eBad("let"))), tSpliceX(eBad("let")), tSpliceX(eBad("car")),
+	}
+}
+
 // ---- macros
 
 type macroTmpl struct {
@@ -244,23 +475,51 @@ func macroTemplates() []tmpl {
 		tSeq("list", sym("list"), tSeq("list", sym("quote"), tUnq("p")), tSplice("q")),
 		tSeq("list", sym("cond"), tUnq("p"), tSeq("list", sym("break")), tSeq("list", sym("list"), tSplice("q"))),
 		tSeq("list", sym("cond"), tUnq("p"), tSeq("list", sym("continue")), tSeq("list", sym("list"), tSplice("q"))),
+		// unquoted expressions of the body's own: nil-valued, spliced, without a value
+		tSeq("list", sym("list"), tUnq("p"), tUnqX(eSeq("begin")), tSpliceX(eSeq("mklist", eLit([]any{"int", -5}), eLit([]any{"int", 2}))), tSplice("q")),
+		tSeq("arr", tUnq("p"), tSpliceX(eSeq("begin")), tSugar("quote", tAtom([]any{"int", -5})), tUnqX(eSeq("scope"))),
+		tSeq("list", sym("list"), tUnq("p"), tUnqX(eBad("let")), tSplice("q")),
+		tSeq("list", sym("list"), tUnq("p"), tSeq("arr", tUnqX(eBad("letlet"))), tSplice("q")),
 	}
 }
 
-func runMacro(id string, mi int, t tmpl, site string) quasiCase {
+// macroNames: the names dimension. Ordinary names (controls), the names of the language's special forms,
+// of a builtin function, of a bound variable, of a reserved word
+func macroNames() []string {
+	return []string{"mfree", "mac2",
+		"and", "or", "cond", "quote", "def", "mdef", "fn", "defn", "begin", "let", "letseq", "assert", "defmac",
+		"macexpand", "syntaxQuote", "include", "for", "set", "break", "continue", "newScope", "package", "return",
+		"list", "x", "range", "struct", "func", "method", "interface", "import", "var", "type", "go"}
+}
+
+var macroNameControls = map[string]bool{"mfree": true, "mac2": true}
+
+func namedMacroTemplate() tmpl {
+	sym := func(s string) tmpl { return tAtom([]any{"sym", s}) }
+	return tSeq("list", sym("list"), tSeq("list", sym("quote"), sym("checked")), tUnq("p"), tSplice("q"))
+}
+
+func runMacro(id string, mi int, t tmpl, site string, name string) quasiCase {
 	se := quasiEnv()
 	pform := []any{"list", []any{[]any{"sym", "tr"}, []any{"int", 1}, []any{"list", []any{[]any{"sym", "+"}, []any{"int", 1}, []any{"int", 2}}}}}
 	qform := []any{"list", []any{[]any{"list", []any{[]any{"sym", "tr"}, []any{"int", 2}, []any{"int", 3}}}, []any{"int", 4}}}
 	binds := []any{[]any{"p", pform}, []any{"q", qform}}
-	c := quasiCase{ID: id, Kind: "macro", Tmpl: t, Binds: binds, Site: site, CallFx: []any{}, HandFx: []any{}}
-	mname := fmt.Sprintf("m%d", mi)
+	c := quasiCase{ID: id, Kind: "macro", Tmpl: t, Binds: binds, Site: site, Name: name, CallFx: []any{}, HandFx: []any{}}
+	none := []any{"none"}
+	c.Expansion, c.CallOut, c.HandOut = none, none, none
+	mname := name
+	if mname == "" {
+		mname = fmt.Sprintf("m%d", mi)
+	}
 	defText := fmt.Sprintf("(defmac %s [p q] ^%s)\n", mname, renderTmpl(t))
-	if o := evalSafe(se.env, defText); o.Kind != "val" {
-		c.Out = projOutcome(se.env, o)
-		c.Text = defText
-		c.Kind = "macrodef-failed"
+	c.Text = defText
+	do := evalSafe(se.env, defText)
+	c.DefOut = projOutcome(se.env, do)
+	if do.Kind != "val" {
+		// refused: there is no macro (QuasiTrace decides what that means for the case)
 		return c
 	}
+	c.DefOut = []any{"val"}
 	callForm := fmt.Sprintf("(%s %s %s)", mname, renderValue(pform), renderValue(qform))
 	c.Text = defText + callForm
 	// expansion, with the caller's state observed around it
@@ -291,7 +550,7 @@ func runMacro(id string, mi int, t tmpl, site string) quasiCase {
 	// the hand-written expansion
 	hv, ok := goSubst(t, map[string]any{"p": pform, "q": qform})
 	if !ok {
-		c.Kind = "macro-unsubstitutable"
+		// the template has no value (Quasi!Subst decides): nothing to write by hand
 		return c
 	}
 	hand := renderValue(hv)
@@ -315,7 +574,7 @@ func runMacro(id string, mi int, t tmpl, site string) quasiCase {
 	if site == "outer-macro" {
 		outer := fmt.Sprintf("(defmac outer%d [a] ^(%s ~a %s))\n", mi, mname, renderValue(qform))
 		if o := evalSafe(se.env, outer); o.Kind != "val" {
-			c.Kind = "macrodef-failed"
+			c.DefOut = projOutcome(se.env, o)
 			return c
 		}
 		callText = fmt.Sprintf("(outer%d %s)\n", mi, renderValue(pform))
@@ -360,22 +619,23 @@ func init() {
 					fatal("bad replay: %v", err)
 				}
 				if in.Kind == "template" {
-					w.write(runTemplate(quasiEnv(), in.ID, in.Tmpl))
+					w.write(runTemplate(quasiEnv(), in.ID, in.Tmpl, in.Route))
 					return
 				}
 				var mi int
 				fmt.Sscanf(in.ID, "mac-%d-", &mi)
-				w.write(runMacro(in.ID, mi, in.Tmpl, in.Site))
+				w.write(runMacro(in.ID, mi, in.Tmpl, in.Site, in.Name))
 			})
 			return 0
 		}
 		_ = zygo.SexpNull
+		checkBadTexts()
 		se := quasiEnv()
 		elems := append(leafTemplates(), nestedTemplates()...)
 		idx := 0
 		emit := func(t tmpl) {
 			if c.mine(idx) {
-				w.write(runTemplate(se, fmt.Sprintf("t%d", idx), t))
+				w.write(runTemplate(se, fmt.Sprintf("t%d", idx), t, ""))
 			}
 			idx++
 		}
@@ -386,8 +646,8 @@ func init() {
 				for _, b := range elems {
 					emit(tSeq(kind, a, b))
 					for ci, cc := range elems {
-						// width 3: complete in thorough, a seeded quarter in quick
-						if c.thorough() || hashSel(c.seed, idx*31+ci, 1, 4) {
+						// width 3: complete in thorough, a seeded fifth in quick
+						if c.thorough() || hashSel(c.seed, idx*31+ci, 1, 5) {
 							emit(tSeq(kind, a, b, cc))
 						} else {
 							idx++
@@ -413,11 +673,11 @@ func init() {
 		for _, a := range elems {
 			for _, b := range nestedTemplates() {
 				if c.mine(idx) {
-					w.write(runTemplate(se, fmt.Sprintf("tw%d", idx), tSeq("list", a, b, tSeq("arr", tAtom([]any{"int", 0}), tAtom([]any{"int", 0})))))
+					w.write(runTemplate(se, fmt.Sprintf("tw%d", idx), tSeq("list", a, b, tSeq("arr", tAtom([]any{"int", 0}), tAtom([]any{"int", 0}))), ""))
 				}
 				idx++
 				if c.mine(idx) {
-					w.write(runTemplate(se, fmt.Sprintf("tw%d", idx), tSeq("arr", tSeq("arr", a), b)))
+					w.write(runTemplate(se, fmt.Sprintf("tw%d", idx), tSeq("arr", tSeq("arr", a), b), ""))
 				}
 				idx++
 			}
@@ -429,11 +689,90 @@ func init() {
 				emit(tSeq("arr", tSeq("list", a, tSplice("one")), b))
 			}
 		}
+		// ---- unquoted expressions (without instructions, nil-valued, valued, without a value), negative
+		// literals, reader sugar: an own environment for every case (an expression that is rejected must not
+		// decide the outcome of the next case)
+		emitR := func(prefix string, t tmpl, route string) {
+			if c.mine(idx) {
+				w.write(runTemplate(nil, fmt.Sprintf("%s%d", prefix, idx), t, route))
+			}
+			idx++
+		}
+		sym := func(n string) tmpl { return tAtom([]any{"sym", n}) }
+		extras := extraTemplates()
+		for _, e := range extras {
+			// the template itself (depth 0), only element, in the middle, nested, as a hash form's value
+			if e[0] != "splicex" {
+				emitR("x", e, "")
+				emitR("x", tSeq("hashform", sym("k"), e), "")
+			}
+			for _, kind := range []string{"list", "arr"} {
+				emitR("x", tSeq(kind, e), "")
+				emitR("x", tSeq(kind, sym("a"), e, sym("b")), "")
+				emitR("x", tSeq(kind, sym("a"), tSeq("list", sym("b"), e), sym("c")), "")
+				emitR("x", tSeq(kind, tSeq("arr", e), tSplice("lst")), "")
+			}
+			// inside a function: the template is compiled with the function and evaluated by the call
+			emitR("x", tSeq("list", sym("a"), e, sym("b"), sym("c")), "fn")
+			// beside every other element: complete in thorough, a seeded fifth in quick
+			for _, kind := range []string{"list", "arr"} {
+				for oi, o := range elems {
+					if c.thorough() || hashSel(c.seed, idx*17+oi, 1, 5) {
+						emitR("x", tSeq(kind, e, o), "")
+						emitR("x", tSeq(kind, o, e), "")
+					} else {
+						idx += 2
+					}
+				}
+			}
+		}
+		for _, e := range elems {
+			if e[0] != "splice" {
+				emitR("x", e, "") // depth 0: the template is one atom, one unquote, one nested container
+			}
+		}
+		// ---- hash OBJECTS in a template (a template built as a value): a splice in a value position changes
+		// the pairing exactly as in the textual form
+		hvals := append(append([]tmpl{}, elems...), extras...)
+		few := []tmpl{tUnq("x"), tSplice("pr"), tSplice("one"), tSeq("list", sym("b"), tUnq("x"))}
+		few2 := few
+		if !c.thorough() {
+			few2 = few[:2]
+		}
+		var hts []tmpl
+		for _, v := range hvals {
+			h1 := tSeq("hashobj", sym("k"), v)
+			hts = append(hts, h1, tSeq("list", sym("a"), h1, sym("b")), tSeq("arr", h1, tSplice("lst")), tSeq("hashobj", sym("k"), tSeq("hashobj", sym("j"), v)))
+			for _, f := range few2 {
+				hts = append(hts, tSeq("hashobj", sym("k"), v, sym("j"), f), tSeq("hashobj", sym("k"), f, sym("j"), v))
+			}
+		}
+		hts = append(hts, tSeq("hashobj"))
+		for _, f := range few {
+			hts = append(hts, tSeq("hashobj", tAtom([]any{"int", 3}), f, tAtom([]any{"str", "s"}), f))
+		}
+		for hi, h := range hts {
+			emitR("h", h, "eval")
+			if c.thorough() || hashSel(c.seed, idx*13+hi, 1, 5) {
+				emitR("h", h, "macro")
+			} else {
+				idx++
+			}
+		}
 		// macros x call sites
 		for mi, t := range macroTemplates() {
 			for _, site := range []string{"top", "function", "loop", "let", "loop-let", "outer-macro"} {
 				if c.mine(idx) {
-					w.write(runMacro(fmt.Sprintf("mac-%d-%s", mi, site), mi, t, site))
+					w.write(runMacro(fmt.Sprintf("mac-%d-%s", mi, site), mi, t, site, ""))
+				}
+				idx++
+			}
+		}
+		// macro names x call sites: whatever name defmac accepts names a macro that calls reach
+		for _, name := range macroNames() {
+			for _, site := range []string{"top", "function"} {
+				if c.mine(idx) {
+					w.write(runMacro(fmt.Sprintf("nm-%s-%s", name, site), 0, namedMacroTemplate(), site, name))
 				}
 				idx++
 			}
